@@ -72,7 +72,9 @@ func (f *Etypecase) Call(s *slip.Scope, args slip.List, depth int) (result slip.
 			continue
 		}
 		for i := 1; i < len(clause); i++ {
-			result = slip.EvalArg(s, clause, i, d2)
+			if result = slip.EvalArg(s, clause, i, d2); slip.IsExit(result) {
+				break
+			}
 		}
 		return
 	}
